@@ -11,6 +11,11 @@
 (*  validate  a model is accepted against a multihash exactly when the     *)
 (*            multihash is H(alg it names, value)                          *)
 (*  commit    commitment(key) = hash of the decoded reveal value of key    *)
+(*  opreveal  the reveal value of an update / recover / deactivate request *)
+(*            is the hash of the key in its signed data - at intake AND    *)
+(*            when an anchored request is parsed (batch mode): the reveal  *)
+(*            value is what resolution derives the consumed commitment     *)
+(*            from, the key is what the signature is verified with         *)
 (*  longform  an unanchored long-form DID resolves iff its initial state   *)
 (*            is canonically encoded, the suffix is the hash of the suffix *)
 (*            data and the delta matches the delta hash                    *)
@@ -37,6 +42,12 @@ ValidateExpected(c) == IF c.mh \in {"ownAlgOwnValue", "otherAlgOwnValue"} THEN "
 CommitCases == [kind : {"commit"}, alg : Algs, kt : 0..4, nonce : BOOLEAN]
 CommitExpected(c) == "equal"
 
+\* the reveal value presented with the request: the hash of the signing key in the signed data, the hash of ANOTHER key
+\* (with the request otherwise consistent: signed by the key it carries), the same digest relabelled as the other algorithm
+RevealForms == {"ownKey", "otherKey", "relabelled"}
+RevealCases == [kind : {"opreveal"}, alg : Algs, ty : {"U", "R", "D"}, mode : {"intake", "batch"}, rv : RevealForms, kt : 0..4]
+RevealExpected(c) == IF c.rv = "ownKey" THEN "accepted" ELSE "rejected"
+
 Segments == {"canonical", "reordered", "whitespace", "suffixDataAltered", "deltaAltered", "memberAdded", "typeMemberIncluded", "foreignTypeMember", "badBase64", "paddedBase64",
              "trailingBits", "byteChanged", "empty", "notJson"}
 \* the DID's suffix: the hash of the embedded suffix data, another hash, or a near miss of the right one (leading
@@ -48,12 +59,14 @@ LongExpected(c) == IF c.segment = "canonical" /\ c.suffix = "match" THEN "resolv
 
 Expected(c) == CASE c.kind = "hash" -> HashExpected(c) [] c.kind = "validate" -> ValidateExpected(c)
                  [] c.kind = "commit" -> CommitExpected(c) [] c.kind = "longform" -> LongExpected(c)
+                 [] c.kind = "opreveal" -> RevealExpected(c)
 
-Init == cs \in HashCases \cup ValidateCases \cup CommitCases \cup LongCases /\ out = Expected(cs)
+Init == cs \in HashCases \cup ValidateCases \cup CommitCases \cup LongCases \cup RevealCases /\ out = Expected(cs)
 Next == UNCHANGED <<cs, out>>
 
 (* the property on the table *)
 ValueOnly == cs.kind = "hash" => (out = "same" <=> cs.alteration = "none")
 BindsContent == cs.kind = "longform" => (out = "resolves" => cs.segment = "canonical" /\ cs.suffix = "match")
+RevealBindsKey == cs.kind = "opreveal" => (out = "accepted" <=> cs.rv = "ownKey")
 Emit == PrintT("CASE " \o ToJson([c |-> cs, out |-> out]))
 =============================================================================
